@@ -272,8 +272,10 @@ def run_history(spec):
             rec["obs"] = {"struct_before": s0, "struct_after": s1, "same_lists": i0 == i1,
                           "nphases": len(ev)}
         elif kind == "initialize":
-            ev, ret = call_recorded(m, lambda: m.project.initialize(state_info=bool(op.get("state", True)),
-                                                                    log_info=bool(op.get("log", True))))
+            rec["args"]["state"] = bool(op.get("state", True))
+            rec["args"]["log"] = bool(op.get("log", True))
+            ev, ret = call_recorded(m, lambda: m.project.initialize(state_info=rec["args"]["state"],
+                                                                    log_info=rec["args"]["log"]))
             rec["ret"] = ret
         elif kind == "reverse":
             ev, rec["ret"] = call_recorded(m, lambda: m.project.reverse_log_information())
